@@ -1,7 +1,7 @@
 //! C19 — Constructors yield faithful well-formed values or an error, never truncation.
 use crate::sem::*;
 use crate::util::*;
-use pocket_types::{Event, Filter, Id, Kind, OwnedEvent, OwnedFilter, OwnedTags, Pubkey, Sig, Tags, Time};
+use pocket_types::{Event, Filter, Id, Kind, OwnedEvent, OwnedTags, Pubkey, Sig, Tags, Time};
 use serde_json::json;
 
 fn shape_of_tags(parts: &[Vec<String>]) -> serde_json::Value {
